@@ -10,6 +10,17 @@
 //	release <alert>:<ver>           -> <parked…> <groups alert:ver,…>   | notparked
 //	groups                          -> <groups alert:ver,…>             (after releasing everything left, oldest first)
 //	stress <pairs>                  -> <stale> <total>                  (ungated: fire→resolve pairs back-to-back)
+//
+// Dispatcher (re)start on a provider that already holds alerts (header `load=1`: no dispatcher until `start`):
+//
+//	put … (before start)            -> -                                (stored in the provider only)
+//	start                           -> <parked>                         a new dispatcher is created and Run; a running one is drained and stopped first
+//	release ^                       -> <parked…> <groups>|loading       releases the initial load (parked at a snapshot alert, shown as ^alert:ver)
+//	lstress <n>                     -> <stale> <total>                  (ungated: n alerts in the provider, dispatcher started, all n resolved at once)
+//
+// The initial load (`Run` routing what `SlurpAndSubscribe` returned) logs the same "Received alert" line and parks at
+// the same handler; its items are recognised by content: the versions the provider held when the dispatcher
+// started.  While the dispatcher is loading, `Groups()` blocks: the group dump is `loading`.
 package workers
 
 import (
@@ -50,6 +61,8 @@ receivers:
 - name: r0
 `
 
+const parkTimeout = time.Hour
+
 type parked struct {
 	key string
 	ch  chan struct{}
@@ -59,6 +72,7 @@ type gate struct {
 	mu      sync.Mutex
 	enabled bool
 	parked  []*parked
+	snap    map[string]bool // alert:ver the provider held when the current dispatcher was started
 }
 
 func (g *gate) keys() string {
@@ -74,7 +88,7 @@ func (g *gate) keys() string {
 func (g *gate) release(key string) bool {
 	g.mu.Lock()
 	for i, p := range g.parked {
-		if p.key == key {
+		if p.key == key || (key == "^" && strings.HasPrefix(p.key, "^")) {
 			g.parked = append(g.parked[:i:i], g.parked[i+1:]...)
 			g.mu.Unlock()
 			close(p.ch)
@@ -109,10 +123,16 @@ func (h handler) Handle(_ context.Context, r slog.Record) error {
 	p := &parked{key: "?", ch: make(chan struct{})}
 	if a != nil {
 		p.key = fmt.Sprintf("%s:%s", a.Labels["id"], a.Annotations["v"])
+		if h.g.snap[p.key] {
+			p.key = "^" + p.key
+		}
 	}
 	h.g.parked = append(h.g.parked, p)
 	h.g.mu.Unlock()
-	<-p.ch
+	select {
+	case <-p.ch:
+	case <-time.After(parkTimeout): // virtual time: a goroutine nobody releases can never hang the run
+	}
 	return nil
 }
 
@@ -121,11 +141,79 @@ type world struct {
 	g      *gate
 	alerts *mem.Alerts
 	disp   *dispatch.Dispatcher
+	route  *dispatch.Route
+	held   map[string]string // what the provider holds: alert ↦ latest version
 }
 
-func lset(id string) model.LabelSet { return model.LabelSet{"alertname": "A", "id": model.LabelValue(id)} }
+// drain releases everything parked, oldest first.
+func (w *world) drain() {
+	for {
+		w.g.mu.Lock()
+		if len(w.g.parked) == 0 {
+			w.g.mu.Unlock()
+			return
+		}
+		k := w.g.parked[0].key
+		w.g.mu.Unlock()
+		w.g.release(k)
+		synctest.Wait()
+	}
+}
+
+// stopDispatcher: nothing parks any more, everything parked is released, then Stop (which waits for every goroutine
+// of the dispatcher, the initial load included).
+func (w *world) stopDispatcher() {
+	w.g.mu.Lock()
+	was := w.g.enabled
+	w.g.enabled = false
+	w.g.mu.Unlock()
+	w.drain()
+	w.disp.Stop()
+	synctest.Wait()
+	w.g.mu.Lock()
+	w.g.enabled = was
+	w.g.mu.Unlock()
+}
+
+// startDispatcher creates and runs a dispatcher on the provider as it is (a running one is drained and stopped first).
+func (w *world) startDispatcher() {
+	if w.disp != nil {
+		w.stopDispatcher()
+	}
+	w.g.mu.Lock()
+	w.g.snap = map[string]bool{}
+	for id, v := range w.held {
+		w.g.snap[id+":"+v] = true
+	}
+	w.g.mu.Unlock()
+	w.disp = dispatch.NewDispatcher(w.alerts, w.route, nil, marker.NewGroupMarker(), func(d time.Duration) time.Duration { return d },
+		time.Hour, nil, slog.New(handler{w.g}), eventrecorder.NopRecorder(), dispatch.NewDispatcherMetrics(false, prometheus.NewRegistry(), nil), nil)
+	go w.disp.Run(time.Now())
+	synctest.Wait()
+}
+
+func (w *world) loaded() bool {
+	if w.disp == nil {
+		return false
+	}
+	select {
+	case <-w.disp.LoadingDone():
+		return true
+	default:
+		return false
+	}
+}
+
+func lset(id string) model.LabelSet {
+	return model.LabelSet{"alertname": "A", "id": model.LabelValue(id)}
+}
 
 func (w *world) put(now int64, id, ver string, end int64) {
+	w.putRaw(now, id, ver, end)
+	w.held[id] = ver
+}
+
+func (w *world) putRaw(now int64, id, ver string, end int64) {
 	a := &alert.Alert{
 		Alert: model.Alert{Labels: lset(id), Annotations: model.LabelSet{"v": model.LabelValue(ver)},
 			StartsAt: w.t0, EndsAt: w.t0.Add(time.Duration(end))},
@@ -151,6 +239,9 @@ func (w *world) groups() map[string]string {
 }
 
 func (w *world) groupsStr() string {
+	if !w.loaded() {
+		return "loading"
+	}
 	var p []string
 	for id, v := range w.groups() {
 		p = append(p, id+":"+v)
@@ -182,18 +273,42 @@ func (w *world) exec(line string) string {
 		synctest.Wait()
 		return w.g.keys() + " " + w.groupsStr()
 	case "groups":
-		for {
-			w.g.mu.Lock()
-			if len(w.g.parked) == 0 {
-				w.g.mu.Unlock()
-				break
-			}
-			k := w.g.parked[0].key
-			w.g.mu.Unlock()
-			w.g.release(k)
-			synctest.Wait()
-		}
+		w.drain()
 		return w.groupsStr()
+	case "start":
+		w.startDispatcher()
+		return w.g.keys()
+	case "lstress":
+		// n firing alerts in the provider, then a dispatcher is started and, while it loads, all of them resolve
+		n := int(hx.Atoi64(t[1]))
+		now := int64(time.Since(w.t0))
+		for i := range n {
+			w.put(now, fmt.Sprintf("s%d", i), "1", int64(time.Hour))
+		}
+		w.g.mu.Lock()
+		w.g.enabled = false
+		w.g.mu.Unlock()
+		done := make(chan struct{})
+		go func() {
+			defer close(done)
+			for i := range n {
+				w.putRaw(now+1, fmt.Sprintf("s%d", i), "2", now) // resolved
+			}
+		}()
+		w.startDispatcher()
+		<-done
+		synctest.Wait()
+		if !w.loaded() {
+			return fmt.Sprintf("%d %d", n, n)
+		}
+		stale := 0
+		gs := w.groups()
+		for i := range n {
+			if gs[fmt.Sprintf("s%d", i)] != "2" {
+				stale++
+			}
+		}
+		return fmt.Sprintf("%d %d", stale, n)
 	case "stress":
 		n := int(hx.Atoi64(t[1]))
 		now := int64(time.Since(w.t0))
@@ -214,17 +329,21 @@ func (w *world) exec(line string) string {
 	panic("bad op " + line)
 }
 
-func runCase(t *testing.T, tr *hx.Trace, id int, r *rand.Rand, script []string, stress int) {
+func runCase(t *testing.T, tr *hx.Trace, id int, r *rand.Rand, script []string, mode string) {
 	synctest.Test(t, func(t *testing.T) {
 		var (
 			nw     int
 			header string
+			load   = mode == "load" || mode == "lstress"
 		)
 		if script != nil {
 			header = script[0]
 			for _, f := range strings.Fields(header) {
 				if strings.HasPrefix(f, "workers=") {
 					nw = int(hx.Atoi64(f[8:]))
+				}
+				if f == "load=1" {
+					load = true
 				}
 			}
 		} else {
@@ -241,19 +360,21 @@ func runCase(t *testing.T, tr *hx.Trace, id int, r *rand.Rand, script []string, 
 				ow = append(ow, fmt.Sprintf("%s:%d", i, uint64(lset(i).Fingerprint())%uint64(nw)))
 			}
 			header = fmt.Sprintf("case %d workers=%d owner=%s", id, nw, strings.Join(ow, ","))
+			if load {
+				header += " load=1"
+			}
 		}
 		tr.Linef("%s", header)
 
 		ctx, cancel := context.WithCancel(context.Background())
-		w := &world{t0: time.Now(), g: &gate{enabled: stress == 0}}
+		w := &world{t0: time.Now(), g: &gate{enabled: mode != "stress" && mode != "lstress"}, held: map[string]string{}}
 		for _, l := range script {
-			if strings.HasPrefix(l, "stress") {
+			if strings.HasPrefix(l, "stress") || strings.HasPrefix(l, "lstress") {
 				w.g.enabled = false
 			}
 		}
 		var err error
-		reg := prometheus.NewRegistry()
-		w.alerts, err = mem.NewAlerts(ctx, time.Hour, 0, nil, promslog.NewNopLogger(), eventrecorder.NopRecorder(), reg, nil)
+		w.alerts, err = mem.NewAlerts(ctx, time.Hour, 0, nil, promslog.NewNopLogger(), eventrecorder.NopRecorder(), prometheus.NewRegistry(), nil)
 		if err != nil {
 			t.Fatal(err)
 		}
@@ -261,22 +382,17 @@ func runCase(t *testing.T, tr *hx.Trace, id int, r *rand.Rand, script []string, 
 		if err != nil {
 			t.Fatal(err)
 		}
-		route := dispatch.NewRoute(cfg.Route, nil)
-		w.disp = dispatch.NewDispatcher(w.alerts, route, nil, marker.NewGroupMarker(), func(d time.Duration) time.Duration { return d },
-			time.Hour, nil, slog.New(handler{w.g}), eventrecorder.NopRecorder(), dispatch.NewDispatcherMetrics(false, reg, nil), nil)
-		go w.disp.Run(time.Now())
-		w.disp.WaitForLoading()
-		synctest.Wait()
+		w.route = dispatch.NewRoute(cfg.Route, nil)
+		if !load {
+			w.startDispatcher()
+		}
 		defer func() {
 			w.g.mu.Lock()
 			w.g.enabled = false
-			ps := w.g.parked
-			w.g.parked = nil
 			w.g.mu.Unlock()
-			for _, p := range ps {
-				close(p.ch)
+			if w.disp != nil {
+				w.stopDispatcher()
 			}
-			w.disp.Stop()
 			w.alerts.Close()
 			cancel()
 			synctest.Wait()
@@ -293,29 +409,66 @@ func runCase(t *testing.T, tr *hx.Trace, id int, r *rand.Rand, script []string, 
 			}
 			return
 		}
-		if stress > 0 {
-			do(fmt.Sprintf("stress %d", stress))
+		switch mode {
+		case "stress":
+			do("stress 2000")
+			return
+		case "lstress":
+			do("lstress 2000")
 			return
 		}
 		now := int64(0)
 		ver := 0
+		pool := ids[:1+r.IntN(3)]
+		put := func() string {
+			ver++
+			now += int64(time.Millisecond)
+			end := int64(time.Hour)
+			if r.IntN(3) == 0 {
+				end = now // a resolve
+			}
+			return do(fmt.Sprintf("put %d %s %d %d", now, hx.Pick(r, pool), ver, end))
+		}
+		release := func(ps []string) string {
+			k := hx.Pick(r, ps)
+			if strings.HasPrefix(k, "^") {
+				k = "^"
+			}
+			return strings.Fields(do("release " + k))[0]
+		}
 		nput := 2 + r.IntN(5)
 		parkedNow := ""
-		pool := ids[:1+r.IntN(3)]
+		if load {
+			// what the provider holds before the dispatcher exists, then updates racing the initial load
+			for range 1 + r.IntN(4) {
+				put()
+			}
+			parkedNow = do("start")
+			nput = 1 + r.IntN(4)
+			restarts := r.IntN(3) / 2
+			for nput > 0 || (parkedNow != "-" && parkedNow != "" && r.IntN(4) > 0) {
+				ps := hx.Split(parkedNow, ",")
+				switch {
+				case restarts > 0 && r.IntN(8) == 0:
+					restarts--
+					parkedNow = do("start")
+				case nput > 0 && (len(ps) == 0 || r.IntN(2) == 0):
+					nput--
+					parkedNow = put()
+				case len(ps) > 0:
+					parkedNow = release(ps)
+				}
+			}
+			do("groups")
+			return
+		}
 		for nput > 0 || (parkedNow != "-" && parkedNow != "" && r.IntN(3) > 0) {
 			ps := hx.Split(parkedNow, ",")
 			if nput > 0 && (len(ps) == 0 || r.IntN(2) == 0) {
 				nput--
-				ver++
-				now += int64(time.Millisecond)
-				end := int64(time.Hour)
-				if r.IntN(3) == 0 {
-					end = now // a resolve
-				}
-				parkedNow = do(fmt.Sprintf("put %d %s %d %d", now, hx.Pick(r, pool), ver, end))
+				parkedNow = put()
 			} else if len(ps) > 0 {
-				o := do("release " + hx.Pick(r, ps))
-				parkedNow = strings.Fields(o)[0]
+				parkedNow = release(ps)
 			}
 		}
 		do("groups")
@@ -330,7 +483,7 @@ func TestEngine(t *testing.T) {
 		n := 0
 		flush := func() {
 			if cur != nil {
-				runCase(t, tr, n, nil, cur, 0)
+				runCase(t, tr, n, nil, cur, "")
 				n++
 			}
 		}
@@ -346,14 +499,22 @@ func TestEngine(t *testing.T) {
 		return
 	}
 	r := hx.Rand(14)
-	for id := range hx.Cases(8000, 60000) {
-		runCase(t, tr, id, r, nil, 0)
+	n := hx.Cases(8000, 60000)
+	for id := range n {
+		runCase(t, tr, id, r, nil, "")
+	}
+	rl := hx.Rand(1414)
+	for id := range n / 2 {
+		runCase(t, tr, 2000000+id, rl, nil, "load")
 	}
 	ns := 4
 	if hx.Thorough() {
 		ns = 20
 	}
 	for i := range ns {
-		runCase(t, tr, 1000000+i, r, nil, 2000)
+		runCase(t, tr, 1000000+i, r, nil, "stress")
+	}
+	for i := range ns {
+		runCase(t, tr, 3000000+i, r, nil, "lstress")
 	}
 }
